@@ -38,6 +38,14 @@ thread_local! {
 fn pattern(tag: u64, i: usize) -> u64 {
     (tag.wrapping_mul(0x9E3779B97F4A7C15)).wrapping_add(i as u64).rotate_left((i % 61) as u32)
 }
+// labels of varying length; two thirds of them contain multi-byte characters (byte length != char count)
+fn label(tag: u64) -> String {
+    match tag % 3 {
+        0 => format!("payload-{tag}"),
+        1 => format!("p\u{e4}yl\u{f6}ad-\u{2192}{tag}-{}", "\u{df}".repeat((tag % 7) as usize)),
+        _ => format!("{}\u{1F980}{tag}", "\u{4e16}\u{754c}".repeat(1 + (tag % 5) as usize)),
+    }
+}
 fn verify(who: &str, tag: u64, data: &[u64], name: Option<&str>) {
     READS.with(|r| *r.borrow_mut() += 1);
     RESETS_SEEN.with(|r| r.borrow_mut().push(evenio::verif::bump_resets()));
@@ -48,7 +56,7 @@ fn verify(who: &str, tag: u64, data: &[u64], name: Option<&str>) {
         }
     }
     if let Some(n) = name {
-        if n != format!("payload-{tag}") {
+        if n != label(tag) {
             ERRORS.with(|e| e.borrow_mut().push(format!("{who}: string payload tag={tag} corrupted: {n:?}")));
         }
     }
@@ -56,8 +64,19 @@ fn verify(who: &str, tag: u64, data: &[u64], name: Option<&str>) {
 
 fn on_kick(r: Receiver<Kick>, s: Sender<(Big, Noise)>) {
     let k = r.event;
-    let data = s.alloc_slice(k.len, |i| pattern(k.tag, i));
-    let name = s.alloc_str(&format!("payload-{}", k.tag));
+    // allocation order varies: the string may come after or before the slice it could overrun
+    let (data, name) = if k.tag % 2 == 0 {
+        let data = s.alloc_slice(k.len, |i| pattern(k.tag, i));
+        let name = s.alloc_str(&label(k.tag));
+        (data, name)
+    } else {
+        let name = s.alloc_str(&label(k.tag));
+        let _one = s.alloc(k.tag);
+        let data = s.alloc_slice(k.len, |i| pattern(k.tag, i));
+        (data, name)
+    };
+    let data: &[u64] = data;
+    let name: &str = name;
     s.send(Noise(k.tag));
     s.send(Big { depth: k.depth, fanout: k.fanout, tag: k.tag, data, name });
     s.send(Noise(k.tag + 1));
